@@ -27,7 +27,7 @@ mod internal;
 /// controlled-scheduler build (see `internal/sync/verif.rs`).
 #[cfg(all(excsn_fibre_verif, excsn_fibre_verif_shuttle, not(loom)))]
 pub mod verif {
-  pub use crate::internal::sync::verif::reset_virtual_clock;
+  pub use crate::internal::sync::verif::{park_count, reset_virtual_clock};
 }
 mod sync_util;
 mod async_util;
